@@ -5,8 +5,11 @@
 (* seen[cfg][n] the type the reader slot of B got under configuration cfg in                     *)
 (*   {"pythonpath" (stub text found on the python path), "imports_map" (stub text through an      *)
 (*    imports-map entry), "pickled" (pickled AST through an imports-map entry)}.                  *)
-(* Invariant: TypeEq(seen[cfg][n], exported[n]) for every cfg, and B's analysis reports neither  *)
-(* an import error nor a pyi error.                                                              *)
+(* Invariant: TypeEq(seen[cfg][n], exported[n]) for every cfg, the configurations agree among    *)
+(* themselves, and B's analysis reports neither an import error nor a pyi error.                  *)
+(* Second part (section WORLDS, generator StubWorld.tla): A is a small import DAG of analysed     *)
+(* modules (aliases that collide across modules; generic classes with positional templates) and   *)
+(* exported[...] of a read path is computed from all their recorded declarations (PathType).      *)
 EXTENDS PytdTypes
 
 (* members of a (possibly nested) union; a non-union is a union of one *)
